@@ -155,3 +155,18 @@ func VerifH_C13_prepared_roundtrip() {
 	expectMessage(rc, kind, data, "prepared 2")
 	expectEnd(rc, "stream")
 }
+
+// Messages whose length needs an extended length field (126 and 300 bytes), read back
+// through the smallest bufio buffer under every fragmentation of the menu: the header byte
+// may arrive separately from the length bytes that follow it.
+func VerifH_C13_roundtrip_extended() {
+	st := &fakeStream{failAt: -1}
+	c := NewConn(nil, st, verif.Bool(), 0, 4, nil, nil, nil)
+	kind := verif.Choose(2) + 1
+	n := [2]int{126, 300}[verif.Choose(2)]
+	data := verif.BytesN(n)
+	verif.Assert(c.WriteMessage(kind, data) == nil, "write")
+	rc, _ := newReaderConn(st.wire(), 3)
+	expectMessage(rc, kind, data, "extended-length message")
+	expectEnd(rc, "stream")
+}
